@@ -12,6 +12,7 @@ import GoNeat.Driver.Json
 import GoNeat.Spec.Activations
 import GoNeat.Gen.ActivationsFloat
 import GoNeat.Gen.Registry
+import GoNeat.Model.SolverMod
 
 namespace GoNeat.Driver
 open Lean GoNeat.Act GoNeat.Spec.Act
@@ -88,9 +89,118 @@ def hActScalar : Handler := fun j => do
     return { corr := corr, spec := bad.isEmpty && mono, nontrivial := sorted && xs.length ≥ 50, cls := cls, sig := sig,
              detail := if bad.isEmpty && mono then cdetail else why }
 
+/-! ### `actModule`, sequence form: `network.ActivateModule` on hand-built control nodes, one after another -/
+
+structure SeqMod where
+  t : Nat
+  inc : List Nat
+  out : List Nat
+
+structure SeqNodeSt where
+  a : Float
+  count : Nat
+  active : Bool
+
+def parseSeqNodeSt (j : Json) : E SeqNodeSt := do
+  return { a := ← fldF j "a", count := ← fldNat j "count", active := ← fldBool j "active" }
+
+/-- `NodeActivators.ActivateModuleByType` as the regenerated registry and the regenerated Float closures define it -/
+def muGen (t : Nat) (xs : List Float) : Option (List Float) :=
+  (genRegistry.moduleOfCode t).bind (fun fn => (Gen.ActF.moduleByName.lookup fn).map (fun f => [f xs]))
+
+/-- the hand-built control node: `Incoming` from the source indices, `Outgoing` to the target indices -/
+def seqCtrl (m : SeqMod) : NNodeS Float :=
+  { id := 0, kind := 0, act := m.t,
+    incoming := m.inc.map (fun i => { src := i, dst := 0, w := 1.0, recur := false }),
+    outgoing := m.out.map (fun i => { src := 0, dst := i, w := 1.0, recur := false }) }
+
+def seqErrCls : Option Solver.Err → String
+  | none => ""
+  | some .unknownModAct => "unknown"
+  | some .moduleOutLen => "outLen"
+  | some _ => "other"
+
+def seqSame (x : NState Float) (g : SeqNodeSt) : Bool :=
+  x.activation.toBits == g.a.toBits && x.count == g.count && x.isActive == g.active
+
+/-- model run: `SolverMod.activateModule` of every control node in order on ONE state; first difference to the dump -/
+def seqModelDiff : List (SeqMod × String × List SeqNodeSt) → Nat → Solver.St Float → Solver.St Float × Option String
+  | [], _, s => (s, none)
+  | (m, err, outs) :: rest, k, s =>
+    let (s2, e) := SolverMod.activateModule muGen (seqCtrl m) s
+    if seqErrCls e != err then (s2, some s!"module {k}: model err '{seqErrCls e}', Go err '{err}'")
+    else if outs.length != m.out.length then (s2, some s!"module {k}: dump of {outs.length} output nodes for {m.out.length}")
+    else match (m.out.zip outs).find? (fun (i, g) => !seqSame (Solver.get s2 i) g) with
+      | some (i, g) =>
+        let x := Solver.get s2 i
+        (s2, some s!"module {k} (type {m.t}, inputs {SolverMod.moduleInputs (seqCtrl m) s |>.map fmtF}): output node {i}: model {fmtF x.activation} count {x.count} active {x.isActive}, Go {fmtF g.a} count {g.count} active {g.active}")
+      | none => seqModelDiff rest (k + 1) s2
+
+def setAt (l : List Float) (i : Nat) (v : Float) : List Float := l.set i v
+
+/-- the C18 predicate on the IMPLEMENTATION's values: every documented module with exactly one output node wrote the
+    product / a maximum / a minimum of ITS OWN inputs (the active outputs of its `Incoming` sources at the time of the
+    call, taken from the implementation's own earlier dumps) to that node, activated it once; every other module
+    (0 or 2 output nodes, undocumented type) answered with an error and left its output nodes untouched.
+    Returns the first violation as (signature, detail). -/
+def seqSpec (shape : String) : List (SeqMod × String × List SeqNodeSt) → Nat → Option Nat → List Float → Option (String × String)
+  | [], _, _, _ => none
+  | (m, err, outs) :: rest, k, prevFan, vals =>
+    let xs := m.inc.map (fun i => vals.getD i 0.0)
+    let after := match prevFan with
+      | some p => if m.inc.length < p then "narrowerAfterWider" else "widerAfterNarrower"
+      | none => "first"
+    let untouched := outs.all (fun o => o.count == 0 && !o.active && o.a.toBits == 0)
+    match moduleDocs.lookup m.t with
+    | none =>
+      if err != "" && untouched then seqSpec shape rest (k + 1) (some m.inc.length) vals
+      else some (s!"seq:unknownModuleTypeAccepted:{m.t}", s!"module {k}: type {m.t} is not a module activation but err='{err}', output nodes touched={!untouched}")
+    | some name =>
+      match m.out, outs with
+      | [d], [o] =>
+        let good := err == "" && o.active && o.count == 1 &&
+          (if m.t == 21 then o.a.toBits == (prodF xs).toBits else if m.t == 22 then isMaxOf o.a xs else isMinOf o.a xs)
+        if good then seqSpec shape rest (k + 1) (some m.inc.length) (setAt vals d o.a)
+        else some (s!"seq:{name}/{after}",
+          s!"module {k} of the sequence ({shape}): {name} over its own {xs.length} inputs {xs.map fmtF} wrote {fmtF o.a} (count {o.count}, active {o.active}, err='{err}') to its output node; previous module had fan-in {prevFan}")
+      | _, _ =>
+        if err == "outLen" && untouched && outs.length == m.out.length then seqSpec shape rest (k + 1) (some m.inc.length) vals
+        else some (s!"seq:{name}/outLen", s!"module {k}: {name} with {m.out.length} output nodes: err='{err}', output nodes touched={!untouched}")
+
+def hActModuleSeq (inp out : Json) : E Verdict := do
+  let shape ← fldStr inp "shape"
+  let nodes ← (← fldArr inp "nodes").mapM (fun j => do return ((← fldF j "v"), (← fldBool j "loaded")))
+  let mods ← (← fldArr inp "mods").mapM (fun j => do
+    return ({ t := ← fldNat j "t", inc := ← arrNat (← fld j "inc"), out := ← arrNat (← fld j "out") } : SeqMod))
+  let res ← (← fldArr out "mods").mapM (fun j => do
+    return ((← fldStr j "err"), (← (← fldArr j "outs").mapM parseSeqNodeSt)))
+  let final ← (← fldArr out "final").mapM parseSeqNodeSt
+  if res.length != mods.length || final.length != nodes.length then throw "actModule sequence dump: lengths"
+  let run := mods.zip res |>.map (fun (m, e, o) => (m, e, o))
+  -- model
+  let s0 : Solver.St Float := nodes.map (fun (v, loaded) => if loaded then Solver.sensorLoad v NState.fresh else NState.fresh)
+  let (sEnd, d) := seqModelDiff run 0 s0
+  let cdetail :=
+    if !genOk then s!"translator reported untranslated constructs: {Gen.Registry.untranslated}" else
+    match d with
+    | some e => e
+    | none =>
+      match ((List.range nodes.length).zip final).find? (fun (i, g) => !seqSame (Solver.get sEnd i) g) with
+      | some (i, g) => s!"final state of node {i}: model {fmtF (Solver.get sEnd i).activation} count {(Solver.get sEnd i).count}, Go {fmtF g.a} count {g.count} active {g.active}"
+      | none => ""
+  -- the wiring must be inside the node table and no node may be the target of two links (what the generator builds)
+  let wired := mods.all (fun m => (m.inc ++ m.out).all (· < nodes.length)) && (mods.flatMap (·.out)).Nodup
+  let fans := mods.map (·.inc.length)
+  let vals0 := nodes.map (fun (v, loaded) => if loaded then v else 0.0)
+  let viol := seqSpec shape run 0 none vals0
+  return { corr := cdetail == "", spec := viol.isNone, nontrivial := wired && mods.length ≥ 2 && fans.Nodup,
+           cls := s!"seq/{shape}/{mods.length}", sig := (viol.map (·.1)).getD "",
+           detail := match viol with | some (_, dt) => dt | none => cdetail }
+
 def hActModule : Handler := fun j => do
   let inp ← fld j "in"
   let out ← fld j "out"
+  if (inp.getObjVal? "seq").isOk then return ← hActModuleSeq inp out
   let t ← fldNat inp "t"
   let fam ← fldStr inp "family"
   let xs ← arrF (← fld inp "xs")
